@@ -261,11 +261,11 @@ def get_second(I): return I.dt.second
 
 def floor_instant(inst):
     dt = inst.dt
-    return Instant(datetime(dt.year, dt.month, dt.day))
+    return Instant(datetime(dt.year, dt.month, dt.day, tzinfo=dt.tzinfo))
     
 def ceil_instant(inst):
     dt = inst.dt
-    return Instant(datetime(dt.year, dt.month, dt.day) + timedelta(days=1))
+    return Instant(datetime(dt.year, dt.month, dt.day, tzinfo=dt.tzinfo) + timedelta(days=1))
 
 def instant_minus_instant(i1, i2):
     check_same_awareness(i1, i2)
